@@ -65,6 +65,12 @@ def c07(ctx):
              "comparisons with constants on the dominating edges confine the value to the target's range; a checked conversion (try_into / "
              "try_from) is not a cast and is what the code uses today")
     narrowing_rule(ctx, "C07.R8")
+    rep.rule("C07.R9", "numbers stay floats: a float-to-integer conversion (`as`, which saturates and maps NaN to 0) occurs in src/exec only in the "
+             "reviewed places -- the three index conversions of Array / string indexing, the repetition count of `*` (sign-guarded, C03.R9) and "
+             "try_to_integer (exactness decided by R6) -- or in a helper only those call; in particular the rounding operations never go "
+             "through an integer.  And a string is cast to a number with a radix by i64::from_str_radix applied to the string itself: no "
+             "part of the sign / digit syntax is handled by hand")
+    float_to_int_rule(ctx, "C07.R9")
     rep.rule("C07.R4", "CENSUS restricted to the transformation code (Val::{split,join,cast,try_to_integer,round_*}, mutation_helper, "
              "visit_mutation, visit_rounding): no panicking callee precondition is left open (radix range, code point conversion)")
     em = inherent_methods(F, EXEC)
@@ -414,3 +420,54 @@ def narrowing_rule(ctx, rule):
                            fn.path, a, b, st.get("line"), blo, bhi, lo, hi), fn.loc(st.get("line")), how="value within the target range on the dominating edges")
                 k += 1
     rep.ob(rule, "scanned", n_fns >= 100, "" if n_fns >= 100 else "only %d bodies of src/exec found" % n_fns, None, how="%d bodies (both profiles), %d narrowing integer casts" % (n_fns, n_casts))
+
+
+FLOAT_TO_INT_OK = {
+    "exec::val::Array::index": "sequence index of a read",
+    "exec::val::Array::index_or_insert": "sequence index of a write (bounded by try_reserve, D5 repair)",
+    "exec::val::index_string_with": "character index of a string read",
+    "exec::val::Val::multiply": "repetition count, only on the `>= 0` edge (C03.R9)",
+    "exec::val::Val::try_to_integer": "after the exact integrality test (C07.R6)",
+}
+
+
+def float_to_int_rule(ctx, rule):
+    from ..core import callee_def
+    from .c03 import kind_deep
+    F, rep = ctx.F, ctx.rep
+    n = 0
+    for fn in F.all_bodies(tests=False):
+        if not fn.file.startswith("src/exec/") or fn.is_derived() or not fn.mir:
+            continue
+        casts = [(bi, si, st) for bi, si, st in fn.assigns() if st["rv"].get("cast") == "FloatToInt"]
+        if not casts:
+            continue
+        top = common.top_fn(F, fn)
+        n += len(casts)
+        ok = top.path in FLOAT_TO_INT_OK
+        how = FLOAT_TO_INT_OK.get(top.path, "")
+        if not ok:
+            callers = {common.top_fn(F, b2).path for b2, bi2, t2 in common.who_calls(F, lambda c: (c.get("resolved") or c.get("def")) == top.path)}
+            if callers and callers <= set(FLOAT_TO_INT_OK):
+                ok, how = True, "helper called only by %s" % sorted(x.rsplit("::", 1)[-1] for x in callers)
+        rep.ob(rule, "float-to-int::%s" % top.path, ok,
+               "" if ok else "%s converts a float to an integer with `as` (line %s): beyond the integer's range the value saturates, NaN becomes 0 and -0 loses its sign -- not one of the reviewed conversions" % (top.path, casts[0][2].get("line")),
+               fn.loc(casts[0][2].get("line")), how=how)
+    rep.floor(rule, n, 3, "float-to-integer conversions in src/exec")
+    cast = F.fn("exec::val::Val::cast")
+    if cast is None:
+        rep.fail(rule, "anchor::cast", "Val::cast not found")
+        return
+    sites = [(b, bi, t) for b in F.with_closures(cast) for bi, t in b.calls() if t["callee"].get("name") == "from_str_radix"]
+    ok, why = len(sites) == 1, "" if len(sites) == 1 else "expected one from_str_radix call in Val::cast, found %d" % len(sites)
+    if ok:
+        b, bi, t = sites[0]
+        inst = t["callee"].get("inst") or callee_def(t) or ""
+        if "i64" not in inst:
+            ok, why = False, "the digits are parsed by %s, not by i64::from_str_radix: sign and range of the result are assembled by hand" % inst
+        else:
+            names = {b.term(d[1])["callee"].get("name") for d, p in kind_deep(b, t["args"][0]) if d[0] == "call"}
+            extra = sorted(x for x in names if x not in ("deref", "as_str", "as_ref", "borrow", "as_mut", "deref_mut"))
+            if extra:
+                ok, why = False, "what is parsed is not the string itself but the result of %s: part of the number syntax is handled by hand" % extra
+    rep.ob(rule, "radix-parse-is-i64-from_str_radix-of-the-string", ok, why, cast.loc(), how="i64::from_str_radix(s, radix)")
